@@ -1,6 +1,13 @@
 package simrt
 
-import "os"
+import (
+	"os"
+	"strconv"
+)
 
 //go:norace
 func exit2() { os.Exit(2) }
+
+func writeDump(dir, text string) {
+	os.WriteFile(dir+"/watchdog-"+strconv.Itoa(os.Getpid())+".txt", []byte(text), 0644)
+}
